@@ -634,19 +634,32 @@ def brief(r):
     return r["cls"]
 
 
+def failure_sig(r):
+    """what kind of failure: the sanitizer error class, the assertion text, the escaping exception"""
+    d = str(r.get("detail", ""))
+    for rx in (r"Assertion `([^']{1,80})", r"terminate called after throwing an instance of '([^']+)'",
+               r"AddressSanitizer: ([\w-]+)", r"runtime error: ([^\n]{1,60})", r"std::exception:([^\n]{1,60})"):
+        m = re.search(rx, d)
+        if m:
+            return m.group(1)
+    return r.get("cls")
+
+
 def shrink_case(ctx, exe, c, cls, budget=8):
-    """smaller request that still makes this build fail in the same class (crash / hang / undoc)"""
+    """smaller request that still makes this build fail in the same class (crash / hang / undoc) with the same
+    kind of failure (same assertion / sanitizer error class), staying away from the F7 zone d >= N - 2"""
     best = dict(c)
     tried = 0
+    env = {"OMP_NUM_THREADS": "2", "UBSAN_OPTIONS": "print_stacktrace=1", "ASAN_OPTIONS": ASAN_OPTIONS}
+    want = failure_sig(run_chunk(ctx, exe, [dict(c)], 10, env)[c["id"]])
 
     def fails(cand):
-        r = run_chunk(ctx, exe, [cand], 10, {"OMP_NUM_THREADS": "2", "UBSAN_OPTIONS": "print_stacktrace=1",
-                                              "ASAN_OPTIONS": ASAN_OPTIONS})
-        return r[cand["id"]]["cls"] == cls
+        r = run_chunk(ctx, exe, [cand], 10, env)[cand["id"]]
+        return r["cls"] == cls and failure_sig(r) == want
 
     cands = []
     for N2 in (4, 5, 6, 8, 12):
-        if N2 < best["N"] and best["d"] < N2 and best["k"] < N2:
+        if N2 < best["N"] and best["d"] < N2 - 2 and best["k"] < N2 and not best["p"].get("stack"):
             cands.append({"N": N2})
     cands += [{"kind": "generic"}, {"nm": "brute"}, {"D": max(1, min(best["D"], 2))}]
     for ch in cands:
